@@ -56,6 +56,14 @@ def jFrame (r : Option (Bool × Option String)) (s : Option (String × Bool)) : 
     Json.mkObj [("app", app), ("match", optStr m), ("short", short), ("short_app", app2)]
   | _, _ => Json.mkObj [("raised", true)]
 
+def jDec : Option Dec → Json
+  | some d => Json.mkObj [("mant", toJson d.mant), ("scale", toJson d.scale)]
+  | none => Json.null
+
+def jOptBool : Option Bool → Json
+  | some b => Json.bool b
+  | none => Json.null
+
 def handle (j : Json) : Except String Json := do
   match (← getStr j "kind") with
   | "lookup" =>
@@ -64,8 +72,14 @@ def handle (j : Json) : Except String Json := do
     let files ← match j.getObjVal? "files" with
       | .ok (.arr a) => a.toList.mapM (·.getStr?)
       | _ => pure []
+    let probes ← match j.getObjVal? "plugin_probes" with
+      | .ok (.arr a) => a.toList.mapM (·.getStr?)
+      | _ => pure []
     pure (Json.mkObj [("values", Json.arr (names.map (fun n => jCVal (w.get n))).toArray),
-                      ("frames", Json.arr (files.map (fun f => jFrame (w.appFrame f) (w.shortName f))).toArray)])
+                      ("frames", Json.arr (files.map (fun f => jFrame (w.appFrame f) (w.shortName f))).toArray),
+                      ("secure", jOptBool w.secure),
+                      ("active", Json.arr (probes.map (fun n => jOptBool (w.pluginActive n))).toArray),
+                      ("interval", jDec (pollInterval (w.get "POLL_TIMER")))])
   | "frame" =>
     let w ← pWorld j
     let files ← (← getArr j "files").toList.mapM (·.getStr?)
@@ -81,9 +95,7 @@ def handle (j : Json) : Except String Json := do
   | "interval" =>
     let w ← pWorld j
     let v := w.get "POLL_TIMER"
-    pure (Json.mkObj [("value", jCVal v), ("interval", match pollInterval v with
-      | some i => toJson i
-      | none => Json.null)])
+    pure (Json.mkObj [("value", jCVal v), ("interval", jDec (pollInterval v))])
   | k => throw s!"unknown kind {k}"
 
 def main : IO Unit := serve handle
